@@ -1,12 +1,310 @@
-import FormulaeModel.Spec.C02
+import FormulaeModel.Proofs.TermsRefine
+import FormulaeModel.Model.Scanner
+import FormulaeModel.Model.Parser
 import FormulaeModel.Generated.Tables
+/-
+C02 — property theorems (statements only use Model/, Spec/C02 and Generated/).
+-/
 namespace FormulaeModel.C02
-open FormulaeModel
+open FormulaeModel FormulaeModel.Terms FormulaeModel.Resolver FormulaeModel.Spec.C02
 
 /-- Tie: the operator map read from resolver.py is the documented one. -/
 theorem resolver_ops_tie : Generated.resolverOps =
     [(.TILDE, .tilde), (.PLUS, .add), (.MINUS, .sub), (.STAR_STAR, .pow), (.COLON, .matmul),
      (.STAR, .mul), (.SLASH, .truediv), (.PIPE, .or_)] := by decide
 theorem resolver_shape : Generated.resolverShapeOk = true := by decide
+
+theorem ops_eq : Generated.resolverOps = docOps := resolver_ops_tie
+
+/-- the formula text → AST, through the model scanner (without / with the implicit `1 +`) and the
+model parser under the regenerated table; used to write witnesses and non-vacuity examples -/
+def exprOf (s : String) (addInt : Bool := false) : Option Expr :=
+  match Scanner.scan s.toList addInt with
+  | .ok ts => (Parser.parse Generated.parserTable ts).toOption
+  | .error _ => none
+
+-- ---------------------------------------------------------------------------------------------
+-- 1. the intercept-free fragment: resolve computes the Wilkinson–Rogers expansion
+-- ---------------------------------------------------------------------------------------------
+/-- Full statement (false on the pinned tree: D22, D24, D25). For every expression of the
+intercept-free fragment (`denT e = some d`: atoms, parentheses, `+ - : * /`, `** n` with a
+literal n ≥ 1) on which `resolve` succeeds, the value is a `Term` or a `Model` of `Term`s only and
+its set of terms (ordered duplicate-free component lists) is `d`. -/
+def C02_plain_refines_Statement : Prop :=
+  ∀ (e : Expr) (d : List STerm) (v : Obj), denT e = some d →
+    resolve Generated.resolverOps e = .ok v →
+    isPlainValue v = true ∧ ∀ t, t ∈ termsOf v ↔ t ∈ d
+
+/-- **The heart.** The statement above outside the three wrong-answer classes D22 (`m * m`),
+D24 (`-` on a model that holds a term twice), D25 (`**` on a model that holds a term twice).
+Stronger than set equality: the denotation's list *is* the implementation's term list with later
+duplicates dropped (`nub` keeps first occurrences), so also the component order inside the terms
+that `/` and `**` build from "all factors of a" agrees. -/
+theorem C02_plain_refines_partial (e : Expr) (d : List STerm) (v : Obj)
+    (hd : denT e = some d) (hr : resolve Generated.resolverOps e = .ok v)
+    (h22 : gapD22 Generated.resolverOps e = false) (h24 : gapD24 Generated.resolverOps e = false)
+    (h25 : gapD25 Generated.resolverOps e = false) :
+    isPlainValue v = true ∧ nub (termsOf v) = d ∧ ∀ t, t ∈ termsOf v ↔ t ∈ d := by
+  rw [ops_eq] at hr h22 h24 h25
+  obtain ⟨p, rfl, _, hs⟩ := plain_main e d v hd hr
+  have hl := hs ⟨h22, h24, h25⟩
+  refine ⟨isPlainValue_toObj p, ?_, ?_⟩
+  · rw [termsOf_toObj]; exact hl
+  · intro t; rw [termsOf_toObj, ← hl, mem_dedup]
+
+/-- every term of the result is a duplicate-free component list (`Term.__init__` de-duplicates),
+with or without the gap classes -/
+theorem C02_plain_terms_nodup (e : Expr) (d : List STerm) (v : Obj)
+    (hd : denT e = some d) (hr : resolve Generated.resolverOps e = .ok v) :
+    isPlainValue v = true ∧ ∀ t ∈ termsOf v, t.Nodup := by
+  rw [ops_eq] at hr
+  obtain ⟨p, rfl, hg, _⟩ := plain_main e d v hd hr
+  exact ⟨isPlainValue_toObj p, fun t ht => (hg t (by rwa [termsOf_toObj] at ht)).1⟩
+
+/-- a concrete expression on which the full statement fails -/
+def plainRefuted (s : String) : Bool :=
+  match exprOf s with
+  | some e =>
+    (match denT e, resolve Generated.resolverOps e with
+     | some d, .ok v => !(isPlainValue v && sameSet (termsOf v) d)
+     | _, _ => false)
+  | none => false
+
+theorem not_statement_of_refuted {s : String} (h : plainRefuted s = true) :
+    ¬ C02_plain_refines_Statement := by
+  intro hS
+  unfold plainRefuted at h
+  split at h
+  · rename_i e _
+    split at h
+    · rename_i d v hd hr
+      obtain ⟨h1, h2⟩ := hS e d v hd hr
+      have : sameSet (termsOf v) d = true := sameSet_iff.2 h2
+      simp [h1, this] at h
+    · simp at h
+  · simp at h
+
+/-- D22: `(a + b) * (a + b)` loses `a:b`. -/
+theorem C02_plain_refines_counterexample_D22 : ¬ C02_plain_refines_Statement :=
+  not_statement_of_refuted (s := "(a + b) * (a + b)") (by decide +kernel)
+/-- D24: `((a + b) * (a + c) - a) : d` keeps `a:d`. -/
+theorem C02_plain_refines_counterexample_D24 : ¬ C02_plain_refines_Statement :=
+  not_statement_of_refuted (s := "((a + b) * (a + c) - a) : d") (by decide +kernel)
+/-- D25: `((p + r + p:q):q) ** 2` has both `p:q:r` and `r:q:p`. -/
+theorem C02_plain_refines_counterexample_D25 : ¬ C02_plain_refines_Statement :=
+  not_statement_of_refuted (s := "((p + r + p:q):q) ** 2") (by decide +kernel)
+
+/-- non-vacuity: a non-trivial expression satisfies every hypothesis of `C02_plain_refines_partial`
+(and its denotation has many terms) -/
+def plainHyps (s : String) (minTerms : Nat) : Bool :=
+  match exprOf s with
+  | some e =>
+    (match denT e, resolve Generated.resolverOps e with
+     | some d, .ok _ => decide (d.length ≥ minTerms)
+     | _, _ => false) &&
+    !gapD22 Generated.resolverOps e && !gapD24 Generated.resolverOps e &&
+    !gapD25 Generated.resolverOps e
+  | none => false
+
+example : plainHyps "(a + b) * f(x, 2) / d + (a + b + `w z`) ** 3 - a:b + {x + 1}:(a + b)" 10 = true := by
+  decide +kernel
+example : plainHyps "(a + b + c) : (b + c) - b" 5 = true := by decide +kernel
+
+-- ---------------------------------------------------------------------------------------------
+-- 2. nothing of the fragment is refused
+-- ---------------------------------------------------------------------------------------------
+/-- Full statement (false on the pinned tree: D5, `(…) ** 1`). -/
+def C02_plain_total_Statement : Prop :=
+  ∀ (e : Expr) (d : List STerm), denT e = some d →
+    ∃ v, resolve Generated.resolverOps e = .ok v
+
+/-- On the intercept-free fragment with every `**` exponent ≥ 2, `resolve` raises nothing
+(numeric literals are not atoms of the fragment: `denT` is `none` on them). -/
+theorem C02_plain_total_expGe2 (e : Expr) (d : List STerm) (hd : denT e = some d)
+    (he : expGe2 e = true) : ∃ v, resolve Generated.resolverOps e = .ok v := by
+  rw [ops_eq]; exact plain_total e d hd he
+
+/-- The same with the D5 class as the guard (`gapD5 e = false` ⇒ every exponent ≥ 2). -/
+theorem C02_plain_total_partial (e : Expr) (d : List STerm) (hd : denT e = some d)
+    (h5 : gapD5 e = false) : ∃ v, resolve Generated.resolverOps e = .ok v :=
+  C02_plain_total_expGe2 e d hd (expGe2_of_noD5 e d hd h5)
+
+def plainRefused (s : String) : Bool :=
+  match exprOf s with
+  | some e =>
+    (match denT e, resolve Generated.resolverOps e with
+     | some _, .error _ => true
+     | _, _ => false)
+  | none => false
+
+/-- D5: `(a + b) ** 1` is in the fragment and is refused. -/
+theorem C02_plain_total_counterexample_D5 : ¬ C02_plain_total_Statement := by
+  intro hS
+  have h : plainRefused "(a + b) ** 1" = true := by decide +kernel
+  unfold plainRefused at h
+  split at h
+  · rename_i e _
+    split at h
+    · rename_i d er hd hr
+      obtain ⟨v, hv⟩ := hS e _ hd
+      rw [hr] at hv; cases hv
+    · simp at h
+  · simp at h
+
+def totalHyps (s : String) : Bool :=
+  match exprOf s with
+  | some e => (denT e).isSome && expGe2 e && !gapD5 e
+  | none => false
+
+example : totalHyps "(a + b) * f(x, 2) / d + (a + b + `w z`) ** 3 - a:b + {x + 1}:(a + b)" = true := by
+  decide +kernel
+
+-- ---------------------------------------------------------------------------------------------
+-- 4. no duplicate terms after the implicit `1 +`
+-- ---------------------------------------------------------------------------------------------
+/-- Full statement (false: without the leading `1 +` nothing de-duplicates `Model(*terms)`). -/
+def C02_nodup_Statement : Prop :=
+  ∀ (e : Expr) (m : ModelV), describe Generated.resolverOps e = .ok m →
+    m.common.Nodup ∧ m.group.Nodup
+
+/-- If the right-hand side is an additive chain that starts with the literal `1` (the scanner's
+implicit intercept), the model `model_description` returns holds no common term and no
+group-specific term twice: every later `+` goes through `Model.add_term`, every `-` through
+`list.remove`. No restriction on the items (any operators, group terms, intercept literals). -/
+theorem C02_nodup (e : Expr) (m : ModelV) (h1 : implicitOne e = true)
+    (hd : describe Generated.resolverOps e = .ok m) : m.common.Nodup ∧ m.group.Nodup := by
+  rw [ops_eq] at hd; exact describe_nodup e m h1 hd
+
+def hasDup (s : String) (addInt : Bool) : Bool :=
+  match exprOf s addInt with
+  | some e =>
+    (match describe Generated.resolverOps e with
+     | .ok m => (nub m.common).length != m.common.length || (nub m.group).length != m.group.length
+     | .error _ => false)
+  | none => false
+
+theorem nodup_of_nub_length {α : Type} [BEq α] [LawfulBEq α] {l : List α} (h : l.Nodup) :
+    (nub l).length = l.length := by rw [nub_eq, dedup_of_nodup h]
+
+/-- the hypothesis is needed even for scanner output: without a `~`, `a | (g + h) * (g + k)` is
+scanned to `1 + a | …`, parsed as `(1 + a) | …`, and `1|g`, `a|g` come out twice -/
+theorem C02_nodup_counterexample : ¬ C02_nodup_Statement := by
+  intro hS
+  have h : hasDup "a | (g + h) * (g + k)" true = true := by decide +kernel
+  unfold hasDup at h
+  split at h
+  · rename_i e _
+    split at h
+    · rename_i m hm
+      obtain ⟨h1, h2⟩ := hS e m hm
+      simp [nodup_of_nub_length h1, nodup_of_nub_length h2] at h
+    · simp at h
+  · simp at h
+
+def nodupHyps (s : String) : Bool :=
+  match exprOf s true with
+  | some e =>
+    implicitOne e &&
+    (match describe Generated.resolverOps e with
+     | .ok m => decide (m.common.length ≥ 4) && decide (m.group.length ≥ 2)
+     | .error _ => false)
+  | none => false
+
+example : nodupHyps "y ~ (a + b) * (a + c) + (a | g) - b" = true := by decide +kernel
+
+-- ---------------------------------------------------------------------------------------------
+-- 3. the whole formula: intercept bookkeeping, group-specific terms, response
+-- ---------------------------------------------------------------------------------------------
+/-- Full statement `C02_refines` (false on the pinned tree: D3, D22, D24, D25 give wrong answers;
+D4, D5 are refusals and make `describe` fail, so they do not falsify this implication).
+For every formula of the documented language (`den e = some d`) that `model_description`
+accepts, the returned model read as a `Sem` equals the denotation: same response, same intercept
+flag, same set of common terms, same set of group-specific terms. -/
+def C02_refines_Statement : Prop :=
+  ∀ (e : Expr) (m : ModelV) (d : Sem), describe Generated.resolverOps e = .ok m → den e = some d →
+    ∃ s, semOfModel m = some s ∧ semEq s d = true
+
+/-- the two shapes the scanner's implicit `1 +` produces: the right-hand side is an additive chain
+that starts with the literal `1` (always when there is a `~`), or the whole formula is one bare
+`eff | grp` whose effect side received the `1 +` -/
+def scannerShape (e : Expr) : Bool := implicitOne e || barePipe e
+
+/-- **`C02_chain` / `C02_refines_partial`.** The full statement for every formula of one of the
+two scanner shapes, outside the wrong-answer classes D3, D22, D24, D25. No bound on the number
+or nesting of items: plain items of the whole intercept-free fragment, `+ 1`, `+ 0`, `- 1`,
+`+ -1` anywhere in the chain, group-specific items `(eff | grp)` whose effect side is any chain
+of plain items and intercept literals and whose grouping side is any plain expression, added or
+subtracted; with or without a response. -/
+theorem C02_refines_partial (e : Expr) (m : ModelV) (d : Sem)
+    (hdesc : describe Generated.resolverOps e = .ok m) (hden : den e = some d)
+    (hshape : scannerShape e = true) (h3 : hasGapD3 e = false)
+    (h22 : gapD22 Generated.resolverOps e = false) (h24 : gapD24 Generated.resolverOps e = false)
+    (h25 : gapD25 Generated.resolverOps e = false) :
+    ∃ s, semOfModel m = some s ∧ semEq s d = true := by
+  rw [ops_eq] at hdesc h22 h24 h25
+  simp only [scannerShape, Bool.or_eq_true] at hshape
+  rcases hshape with h1 | h1
+  · exact refines_main e m d hdesc hden h1 h3 ⟨h22, h24, h25⟩
+  · exact refines_barepipe e m d hdesc hden h1 h3 ⟨h22, h24, h25⟩
+
+/-- a concrete formula on which the full statement fails -/
+def refinesRefuted (s : String) (addInt : Bool) : Bool :=
+  match exprOf s addInt with
+  | some e =>
+    (match describe Generated.resolverOps e, den e with
+     | .ok m, some d =>
+       (match semOfModel m with
+        | some x => !semEq x d
+        | none => true)
+     | _, _ => false)
+  | none => false
+
+theorem not_refines_of_refuted {s : String} {b : Bool} (h : refinesRefuted s b = true) :
+    ¬ C02_refines_Statement := by
+  intro hS
+  unfold refinesRefuted at h
+  split at h
+  · rename_i e _
+    split at h
+    · rename_i m d hm hd
+      obtain ⟨x, hx, hxe⟩ := hS e m d hm hd
+      simp [hx, hxe] at h
+    · simp at h
+  · simp at h
+
+/-- D3: `y ~ (x + z - 1 | g)` keeps the group intercept. -/
+theorem C02_refines_counterexample_D3 : ¬ C02_refines_Statement :=
+  not_refines_of_refuted (s := "y ~ (x + z - 1 | g)") (b := true) (by decide +kernel)
+/-- D22: `y ~ (a + b) * (a + b)` loses `a:b`. -/
+theorem C02_refines_counterexample_D22 : ¬ C02_refines_Statement :=
+  not_refines_of_refuted (s := "y ~ (a + b) * (a + b)") (b := true) (by decide +kernel)
+/-- D24: `y ~ ((a + b) * (a + c) - a) : d` keeps `a:d`. -/
+theorem C02_refines_counterexample_D24 : ¬ C02_refines_Statement :=
+  not_refines_of_refuted (s := "y ~ ((a + b) * (a + c) - a) : d") (b := true) (by decide +kernel)
+/-- D25: `y ~ ((p + r + p:q):q) ** 2` has both `p:q:r` and `r:q:p`. -/
+theorem C02_refines_counterexample_D25 : ¬ C02_refines_Statement :=
+  not_refines_of_refuted (s := "y ~ ((p + r + p:q):q) ** 2") (b := true) (by decide +kernel)
+/-- the shape guard: an AST the scanner never produces, `0 + a` without the implicit `1 +`,
+resolves to a model that still holds the `NegatedIntercept`. -/
+theorem C02_refines_needs_scanner_shape : ¬ C02_refines_Statement :=
+  not_refines_of_refuted (s := "0 + a") (b := false) (by decide +kernel)
+
+/-- non-vacuity: formulas through the model scanner and parser that satisfy every hypothesis of
+`C02_refines_partial` -/
+def refinesHyps (s : String) (minCommon minGroup : Nat) : Bool :=
+  match exprOf s true with
+  | some e =>
+    (match describe Generated.resolverOps e, den e with
+     | .ok _, some d => decide (d.common.length ≥ minCommon) && decide (d.group.length ≥ minGroup)
+     | _, _ => false) &&
+    scannerShape e && !hasGapD3 e && !gapD22 Generated.resolverOps e &&
+    !gapD24 Generated.resolverOps e && !gapD25 Generated.resolverOps e
+  | none => false
+
+example : refinesHyps "y ~ a*b + (0 + x | g) - a + 0 + (1 + x | g:h)" 2 3 = true := by
+  decide +kernel
+example : refinesHyps "y[l] ~ 0 + (a + b) ** 2 / c + (1 | g) - (1 | g) + 1" 4 0 = true := by
+  decide +kernel
+example : refinesHyps "x + z | g / h" 0 6 = true := by decide +kernel
 
 end FormulaeModel.C02
